@@ -566,6 +566,8 @@ Section CmdInd.
   Hypothesis H_setparams : forall ps, P (CSetParams ps).
   Hypothesis H_exec : forall t, P (CExec t).
   Hypothesis H_read : forall t n l, P (CRead t n l).
+  Hypothesis H_for : forall n vals body, Forall P body -> P (CFor n vals body).
+  Hypothesis H_return : P CReturn.
 
   Fixpoint cmd_ind' (c : cmd) : P c :=
     match c with
@@ -586,8 +588,40 @@ Section CmdInd.
     | CSetParams ps => H_setparams ps
     | CExec t => H_exec t
     | CRead t n l => H_read t n l
+    | CFor n vals body =>
+        H_for n vals body
+          ((fix go (l : list cmd) : Forall P l :=
+              match l with
+              | [] => Forall_nil P
+              | c :: l => Forall_cons c (cmd_ind' c) (go l)
+              end) body)
+    | CReturn => H_return
     end.
 End CmdInd.
+
+Lemma compile_call t body a :
+  compile (CCall t body a) =
+  IOp (OPush CVolatile) EIgnore :: temp_volatile t
+  ++ IOp (OPush (CRegular a)) EIgnore :: flat_map compile (cut_return body)
+  ++ [IOp OPop EIgnore; IOp OPop EIgnore].
+Proof.
+  cbn [compile]. do 4 f_equal.
+  induction body as [|c body IH]; [reflexivity|].
+  destruct c; cbn [cut_return flat_map]; try (rewrite IH; reflexivity). reflexivity.
+Qed.
+
+Lemma forallb_cut_return (f : cmd -> bool) body :
+  forallb f body = true -> forallb f (cut_return body) = true.
+Proof.
+  induction body as [|c body IH]; [reflexivity|]. cbn [forallb]. rewrite andb_true_iff. intros [H1 H2].
+  destruct c; cbn [cut_return forallb]; rewrite ?H1, ?(IH H2); reflexivity.
+Qed.
+
+Lemma Forall_cut_return (P : cmd -> Prop) body : Forall P body -> Forall P (cut_return body).
+Proof.
+  induction 1 as [|c body Hc _ IH]; [constructor|].
+  destruct c; cbn [cut_return]; constructor; assumption.
+Qed.
 
 Definition good (n : name) (l0 : list instr) : Prop :=
   forall d l, wf n d l = true ->
@@ -652,8 +686,8 @@ Qed.
 
 Lemma compile_good n c : cmd_safe n c = true -> good n (compile c).
 Proof.
-  induction c as [a|t|t|t body a IH|t g x r m v|m v|m v|m|ps|t|t m ln] using cmd_ind';
-    cbn [cmd_safe compile]; intros Hs.
+  induction c as [a|t|t|t body a IH|t g x r m v|m v|m v|m|ps|t|t m ln|m vals body IH|] using cmd_ind';
+    try rewrite compile_call; cbn [cmd_safe compile]; intros Hs.
   - apply good_temp_global; exact Hs.
   - replace (temp_volatile t ++ [IObsVars; IOp OPop EIgnore])
       with ((temp_volatile t ++ [IObsVars]) ++ [IOp OPop EIgnore]) by (rewrite <- app_assoc; reflexivity).
@@ -661,14 +695,15 @@ Proof.
     apply good_app; [apply good_temp_volatile|]. intros d l Hw. cbn. auto.
   - apply good_temp_global; exact Hs.
   - (* call *)
-    replace (temp_volatile t ++ IOp (OPush (CRegular a)) EIgnore :: flat_map compile body
+    replace (temp_volatile t ++ IOp (OPush (CRegular a)) EIgnore :: flat_map compile (cut_return body)
              ++ [IOp OPop EIgnore; IOp OPop EIgnore])
-      with ((temp_volatile t ++ (IOp (OPush (CRegular a)) EIgnore :: flat_map compile body
+      with ((temp_volatile t ++ (IOp (OPush (CRegular a)) EIgnore :: flat_map compile (cut_return body)
              ++ [IOp OPop EIgnore])) ++ [IOp OPop EIgnore]).
     2:{ rewrite <- !app_assoc. cbn [app]. rewrite <- !app_assoc. reflexivity. }
     apply (good_bracket n CVolatile).
     apply good_app; [apply good_temp_volatile|].
-    apply (good_bracket n (CRegular a)). apply good_flat_map; assumption.
+    apply (good_bracket n (CRegular a)).
+    apply good_flat_map; [apply Forall_cut_return; exact IH|apply forallb_cut_return; exact Hs].
   - (* typeset *)
     set (sc := if g then SGlobal else SLocal).
     assert (Hop : forall ms, op_safe n (OGetOrNew m sc ms) = true).
@@ -698,6 +733,13 @@ Proof.
     end.
     apply good_bracket. apply good_app; [apply good_temp_volatile|].
     apply good_op; [cbn [op_safe]; exact Hs|reflexivity|discriminate].
+  - (* for *)
+    apply andb_true_iff in Hs. destruct Hs as [Hm Hb].
+    induction vals as [|v vals IHv]; cbn [flat_map]; [apply good_nil|].
+    apply good_app; [|exact IHv].
+    apply (good_app n [_]); [|apply good_flat_map; assumption].
+    apply good_op; [cbn [op_safe]; exact Hm|reflexivity|discriminate].
+  - apply good_nil.
 Qed.
 
 Lemma compile_script_good n body :
@@ -714,7 +756,8 @@ Lemma temp_function_lemma temps body args n s t s' :
   mrun (compile (CCall temps body args)) s = (t, Finished, s') ->
   ctxs s' = ctxs s /\ stack_of s' n = stack_of s n.
 Proof.
-  intros HI Hsafe. cbn [compile irun step is_err].
+  intros HI Hsafe. rewrite compile_call. cbn [irun step is_err].
+  apply (forallb_cut_return (cmd_safe n)) in Hsafe.
   set (k := length (ctxs s)).
   set (s0 := mkVS (vars s) (ctxs s ++ [CVolatile])).
   assert (Es0 : step s (OPush CVolatile) = Some (s0, RUnit)) by reflexivity.
@@ -734,7 +777,7 @@ Proof.
       rewrite Hc1, Hlen0, Nat.sub_diag. reflexivity. }
   assert (Hk12 : forall i, i < k -> entry s2 n i = entry s n i).
   { intros i Hi. change (entry s2 n i) with (entry s1 n i). rewrite Hlow1 by exact Hi. reflexivity. }
-  destruct (compile_script_good n body Hsafe 0 [] eq_refl) as [Hwf Hdep].
+  destruct (compile_script_good n (cut_return body) Hsafe 0 [] eq_refl) as [Hwf Hdep].
   rewrite app_nil_r in Hwf, Hdep. cbn [depth_after] in Hdep.
   destruct (body_irun k n _ _ s2 0 _ s' HI2 Hab2 Hwf Hrun1) as (s3 & t3 & HI3 & [Hf3 Hk3] & Hab3 & Hrun3).
   rewrite Hdep in Hab3. destruct Hab3 as [Hlen3 _].
@@ -868,3 +911,40 @@ Proof.
 Qed.
 
 End Persist.
+
+(* ==== return, for ============================================================================ *)
+
+Lemma cut_return_app pre post : cut_return pre = pre -> cut_return (pre ++ CReturn :: post) = pre.
+Proof.
+  induction pre as [|c pre IH]; [reflexivity|].
+  destruct c; cbn [cut_return app]; try discriminate; intros [= H]; rewrite (IH H); reflexivity.
+Qed.
+
+Lemma return_lemma t pre post a :
+  cut_return pre = pre ->
+  compile (CCall t (pre ++ CReturn :: post) a) = compile (CCall t pre a).
+Proof. intros H. rewrite !compile_call, (cut_return_app _ _ H), H. reflexivity. Qed.
+
+Section ForLoop.
+Variable ov oe : vset -> pobs.
+Notation mrun := (irun vset step ov oe).
+
+Lemma for_lemma n vals v s t s' :
+  mrun (compile (CFor n (vals ++ [v]) [])) s = (t, Finished, s') ->
+  ctxs s' = ctxs s /\ exists w, get s' n = Some w /\ vval w = Some (Scalar v).
+Proof.
+  cbn [compile flat_map]. revert s. induction vals as [|u vals IH]; intros s; cbn [app flat_map irun].
+  - destruct (step s (OGetOrNew n SGlobal [MAssign (Scalar v) (Some 0%N)])) as [[s1 r]|] eqn:Es; [|discriminate].
+    destruct (is_err r) eqn:Er; [discriminate|]. intros [= _ <-].
+    split; [apply (step_gon_ctxs _ _ _ _ _ _ Es)|].
+    cbn [step] in Es.
+    destruct (get_or_new_stack (ctxs s) SGlobal (stack_of s n)) as [[|[v0 j] rest]|]; try discriminate.
+    cbn [mutate_all mutate] in Es. destruct (vro v0) eqn:Ero.
+    + injection Es as <- <-. cbn in Er. discriminate.
+    + injection Es as <- <-. unfold get. rewrite stack_of_with_same. eexists; split; reflexivity.
+  - destruct (step s (OGetOrNew n SGlobal [MAssign (Scalar u) (Some 0%N)])) as [[s1 r]|] eqn:Es; [|discriminate].
+    destruct (is_err r); [discriminate|]. intros H.
+    destruct (IH s1 H) as [Hc Hw]. split; [|exact Hw].
+    rewrite Hc. apply (step_gon_ctxs _ _ _ _ _ _ Es).
+Qed.
+End ForLoop.
